@@ -363,6 +363,50 @@ pub fn observe(ctx: &Ctx, st: &mut Stats, j: &J) {
             st.count("fingerprint_collision_pairs_checked", 1);
             st.reach("collision_hashes", hash as u64);
             st.distinct(mix(0xc011de, seed));
+            // the same inside ONE array: two blocks of equal length whose contents differ but share the fingerprint
+            // (a call that recognises "a block it has already divided" by anything less than its content shows here)
+            if lay.num_blocks >= 2 && lay.block_data_len(0) == lay.block_data_len(1) {
+                let len = lay.block_data_len(0);
+                let block_base: Vec<u8> = {
+                    let mut rng = Rng::new(seed ^ 0xb10c);
+                    (0..len).map(|_| rng.byte()).collect()
+                };
+                let make_block = |i: u64| -> Vec<u8> {
+                    let mut a = block_base.clone();
+                    let m = oracle::rng::mix(seed ^ 0xb10c, i);
+                    for (k, pos) in [0usize, len / 3, len / 2, len - 1].iter().enumerate() {
+                        a[*pos] ^= (m >> (8 * k)) as u8;
+                    }
+                    a
+                };
+                match crate::collide::find_pair(hash, 1 << 18, make_block) {
+                    None => st.count("collision_searches_without_result", 1),
+                    Some(p) => {
+                        let (x, y) = (make_block(p.0), make_block(p.1));
+                        for (first, second) in [(&x, &y), (&y, &x)] {
+                            let mut d = base.clone();
+                            d[..len].copy_from_slice(first);
+                            d[len..2 * len].copy_from_slice(second);
+                            // a third copy further back when the layout has room for it
+                            if lay.num_blocks >= 3 && lay.block_data_len(2) == len {
+                                d[2 * len..3 * len].copy_from_slice(first);
+                            }
+                            let out = match call_structure(&d, v, level) {
+                                Ok(o) => o,
+                                Err(p) => {
+                                    viol(st, ("structure-panic".into(), p), j, String::new());
+                                    return;
+                                }
+                            };
+                            if let Err(e) = check_output(&out, &d, &lay) {
+                                viol(st, e, j, format!("blocks 0 and 1 of ONE array differ but share their {} fingerprint (version {v} level {})", crate::collide::HASH_NAMES[hash], tables::LEVEL_NAMES[level]));
+                                return;
+                            }
+                        }
+                        st.count("fingerprint_colliding_blocks_inside_one_array_checked", 1);
+                    }
+                }
+            }
         }
         J::Built { v, level, kind, seed } => {
             st.eval();
